@@ -34,7 +34,10 @@ use surf_n_term::{Key, KeyChord, KeyMap, KeyMapHandler, KeyMod, KeyName};
 // ---------------------------------------------------------------------------------------------
 // key alphabet (the model works on indices into this table)
 
-const NAMES: [&str; 5] = ["a", "b", "^c", "c", "x"];
+const NAMES: [&str; 9] = ["a", "b", "^c", "c", "x", "F1", "F(1+2^32)", "Tab", "Char(tab)"];
+/// keys that are different values but easy to confuse: function keys 2^32 apart, the named Tab key and the
+/// tab character
+const A4: [u8; 4] = [5, 6, 7, 8];
 /// BFS alphabets
 const A3: [u8; 3] = [0, 1, 2];
 const A2: [u8; 2] = [0, 1];
@@ -48,6 +51,10 @@ fn key(i: u8) -> Key {
         1 => Key::new(KeyName::Char('b'), KeyMod::EMPTY),
         2 => Key::new(KeyName::Char('c'), KeyMod::CTRL),
         3 => Key::new(KeyName::Char('c'), KeyMod::EMPTY),
+        5 => Key::new(KeyName::F(1), KeyMod::EMPTY),
+        6 => Key::new(KeyName::F(1 + (1usize << 32)), KeyMod::EMPTY),
+        7 => Key::new(KeyName::Tab, KeyMod::EMPTY),
+        8 => Key::new(KeyName::Char('\t'), KeyMod::EMPTY),
         _ => Key::new(KeyName::Char('x'), KeyMod::EMPTY),
     }
 }
@@ -869,7 +876,9 @@ pub fn run(ctx: &Ctx) -> Result<Report, String> {
     let d2 = ctx.tier.pick(4, 6);
     let s3 = run_bfs(ctx, &A3, d3, &viol, &samples, &counters);
     let s2 = run_bfs(ctx, &A2, d2, &viol, &samples, &counters);
-    capped |= s3.capped || s2.capped;
+    let d4 = ctx.tier.pick(2usize, 3usize);
+    let s4 = run_bfs(ctx, &A4, d4, &viol, &samples, &counters);
+    capped |= s3.capped || s2.capped || s4.capped;
 
     lap("bfs", &mut timing);
     // 2. override merging over all ordered pairs of small maps
@@ -1078,8 +1087,8 @@ pub fn run(ctx: &Ctx) -> Result<Report, String> {
     }
 
     let ld = |a: &AtomicU64| a.load(Ordering::Relaxed);
-    let states = s3.states + s2.states;
-    let transitions = s3.transitions + s2.transitions;
+    let states = s3.states + s2.states + s4.states;
+    let transitions = s3.transitions + s2.transitions + s4.transitions;
     let pairs = ld(&pairs);
     let mut r = Report::new("model_checking");
     r.set("matcher_long_chords", json!({"maps": long_maps_n, "runs": long_runs, "typed_len": long_typed}));
@@ -1097,6 +1106,8 @@ pub fn run(ctx: &Ctx) -> Result<Report, String> {
                  "transitions": s3.transitions, "levels": s3.levels, "fixpoint": s3.fixpoint, "pruned": s3.pruned},
                 {"alphabet": show(&A2), "operations": chords(&A2, 1, 3).len(), "probe_chords": chords(&A2, 1, 4).len(), "depth": d2, "states": s2.states,
                  "transitions": s2.transitions, "levels": s2.levels, "fixpoint": s2.fixpoint, "pruned": s2.pruned},
+                {"alphabet": show(&A4), "operations": chords(&A4, 1, 3).len(), "depth": d4, "states": s4.states,
+                 "transitions": s4.transitions, "levels": s4.levels, "fixpoint": s4.fixpoint, "pruned": s4.pruned},
             ]),
         )
         .set(
